@@ -436,7 +436,19 @@ func (e *Exec) initChain() bool {
 			return false
 		}
 		if i == 0 {
-			genBytes, e.Model = e.Env.BuildGenesis(n.App, &e.S.Config.Genesis)
+			var genErr interface{}
+			func() {
+				// the custom sections are rendered by the modules' own JSON codec (the one ExportGenesis output goes through)
+				defer func() { genErr = recover() }()
+				genBytes, e.Model = e.Env.BuildGenesis(n.App, &e.S.Config.Genesis)
+			}()
+			if genErr != nil {
+				if e.Model == nil {
+					e.Model = NewModel()
+				}
+				e.viol("C08", "genesis.codec_output_invalid", "", "the application's JSON codec cannot render a genesis file holding legal custom-module entries: %v", genErr)
+				return false
+			}
 		}
 		req := abci.RequestInitChain{ChainId: ChainID, ConsensusParams: consensusParams(), AppStateBytes: genBytes, Time: e.Now, InitialHeight: e.H0 + 1}
 		r.Genesis = &req
@@ -907,7 +919,7 @@ func rejectPropOf(m sdk.Msg, why string) string {
 		switch why {
 		case "did exists", "did deactivated":
 			return "C05"
-		case "document id differs from did":
+		case "document id differs from did", "proof made for another identifier":
 			return "C11"
 		case "proof made over another sequence":
 			return "C04"
